@@ -165,7 +165,7 @@ func (j restoreJob) line() string {
 		integ = 1
 	}
 	return fmt.Sprintf("restore PRE=%d TMPPRE=0 FAIL=%s FAULTS=%d CORRUPT=%d SIZES=%d INTEG=%d IOK=%d CANCEL=0",
-		b(j.mut.Kind == "preexist"), j.failStep, j.faults, b(j.corrupt), b(j.sizes), integ, b(j.iok))
+		b(j.mut.Kind == "preexist" && j.mut.PreKind != "dangling"), j.failStep, j.faults, b(j.corrupt), b(j.sizes), integ, b(j.iok))
 }
 
 func restoreSig(m Mut, what string) string {
@@ -298,7 +298,7 @@ func runRestoreJobs(drv *hx.Driver, jobs []restoreJob, scratch string, par int) 
 			for i := range next {
 				j := jobs[i]
 				q := workerReq{Dir: j.env.dir, Mut: j.mut, OutDir: dir}
-				if j.mut.Kind == "stale-tmp" {
+				if j.mut.Kind == "stale-tmp" || (j.mut.Kind == "preexist" && j.mut.PreKind == "sqlite") {
 					q.Plant = filepath.Join(scratch, fmt.Sprintf("plant-%d", slot))
 					os.MkdirAll(scratch, 0o755)
 					if err := os.WriteFile(q.Plant, j.plant, 0o644); err != nil {
@@ -436,6 +436,31 @@ func jobsFor(r *hx.Rand, env *replicaEnv, h HistSpec, scratch string, all bool, 
 	add(Mut{Kind: "none", Integrity: 2}, nil)
 	add(Mut{Kind: "preexist"}, nil)
 	add(Mut{Kind: "preexist", Integrity: 1}, nil)
+	// whatever already occupies the output path — including a zero-byte file, which is what SQLite leaves
+	// for a freshly created database — Restore must refuse, for every kind of target, and leave the object
+	// byte-for-byte and inode-identical
+	if sq, err := bigSQLite(filepath.Join(scratch, "big"), h.PageSize, 4*h.PageSize); err == nil {
+		tsAll := int64(0)
+		if fs, err := allFiles(env.client); err == nil {
+			for _, f := range fs {
+				tsAll = max(tsAll, f.Created+1)
+			}
+		}
+		for _, pk := range []string{"empty", "one", "sqlite", "dir", "symlink", "fifo", "dangling"} {
+			for _, tg := range []Mut{{}, {TXID: 1}, {TS: tsAll}} {
+				if pk == "dangling" && tg.TXID != 0 {
+					continue
+				}
+				m := tg
+				m.Kind, m.PreKind = "preexist", pk
+				add(m, func(j *restoreJob) {
+					j.plant = sq
+				})
+			}
+		}
+	} else {
+		return nil, err
+	}
 	for fi, info := range plan {
 		b, err := readPlanFile(env, info)
 		if err != nil {
